@@ -4,4 +4,6 @@ CONSTANTS
   Full = FALSE
 INVARIANT EmitCases
 INVARIANT NoTable
+INVARIANT EmitLists
+INVARIANT NoItemTable
 CHECK_DEADLOCK FALSE
